@@ -17,7 +17,7 @@ from __future__ import annotations
 import ast
 
 from ..cfg import ENTRY, EXIT, header_parts
-from ..flow import Defs, Scope, arg, caller_object_mutations, guards, iterations
+from ..flow import Defs, Scope, absence_by_none, arg, caller_object_mutations, guards, iterations, nnf
 from ..loader import AnalysisError, FuncInfo, dotted, norm, walk_no_nested
 from ..report import Ctx
 from ..selftest import Mutant
@@ -133,6 +133,19 @@ def rule_key_complete(ctx: Ctx) -> None:  # noqa: C901, PLR0912, PLR0915
     its = [it for it in iterations(cck.node) if ra in {x.id for x in ast.walk(it["iter"]) if isinstance(x, ast.Name)}]
     partial = [it for it in its if isinstance(it["iter"], ast.Subscript)]
     none_ret = any(isinstance(r, ast.Return) and (r.value is None or (isinstance(r.value, ast.Constant) and r.value.value is None)) for r in ast.walk(cck.node))
+    skipped = []
+    kwp = ps[1] if len(ps) > 1 else "kwargs"
+    for it in its:
+        if it["kind"] != "loop":
+            continue
+        tv = norm(it["target"])
+        for st in ast.walk(it["node"]):
+            if isinstance(st, ast.If) and nnf(st.test) in (f"{tv} not in {kwp}",) and st.body and isinstance(st.body[-1], ast.Continue):
+                skipped.append(st)
+            if isinstance(st, ast.If) and nnf(st.test) == f"{tv} in {kwp}" and not st.orelse and not any(isinstance(x, (ast.Return, ast.Raise)) for x in ast.walk(it["node"]) if x is not st):
+                skipped.append(st)
+    ctx.add("1-key-complete", cck, skipped[0] if skipped else cck.node, not skipped, "a root argument that is not supplied disables the key" if not skipped else
+            "a root argument that is not supplied is left out of the key: its value then comes from a default that is not part of the key, so a changed default is answered from the old entry", key="missing-root-disables")
     ctx.tri("1-key-complete", cck, (partial or its or [{"node": cck.node}])[0]["node"], bool(its) and not partial and none_ret, bool(partial),
             "every root argument's value enters the key; a missing one disables it", f"only `{norm(partial[0]['iter']) if partial else ''}` of the root arguments enter the key: calls differing in the others share an entry",
             "iteration over the root arguments not recognised", key="all-root-args")
@@ -270,6 +283,11 @@ def rule_miss_tolerant(ctx: Ctx) -> None:
         ctx.add("5-miss-tolerant", f, pairs[0][0], sentinel, "get() is told apart from a miss" if sentinel else
                 "`key in cache` followed by `cache.get(key)`: with a shared cache another process can evict the entry in between, and the None returned for the miss is used as the cached result", key="check-then-get")
     ctx.floor("5-miss-tolerant", n5, 3)
+    for q in ("pipefunc.map._run._get_or_set_cache", f"{CA}.get_result_from_cache", "pipefunc.cache.memoize.decorator.wrapper"):
+        f = P.func(q)
+        sites = absence_by_none(f.node, ("cache",))
+        ctx.add("5-miss-tolerant", f, sites[0][0] if sites else f.node, not sites, "a hit is decided by membership (or a sentinel), not by the cached value" if not sites else
+                f"a hit is decided by `{sites[0][1]}.get(...)` being None: a cached result that IS None counts as a miss, so the function runs again on every call", key="none-is-a-value")
 
 
 def rule_short_circuit(ctx: Ctx) -> None:  # noqa: C901, PLR0915
@@ -350,5 +368,7 @@ MUTANTS = [
     Mutant("cache-everything", B, "        use_cache = (func.cache and cache is not None) or task_graph() is not None\n", "        use_cache = cache is not None or task_graph() is not None\n", ("C09.6-short-circuit",)),
     Mutant("store-without-key", B, "        if use_cache and cache_key is not None:\n", "        if use_cache:\n", ("C09.6-short-circuit",)),
     Mutant("kwargs-not-copied-F19b", CF, "    cache_kwargs = {} if cache_kwargs is None else dict(cache_kwargs)\n", "    if cache_kwargs is None:\n        cache_kwargs = {}\n", ("C09.3-isolation",), why="original F19b"),
+    Mutant("hit-by-value-not-none", CF, "    if cache_key is not None and cache_key in cache:\n        r = cache.get(cache_key)\n", "    if cache_key is not None and (r := cache.get(cache_key)) is not None:\n", ("C09.5-miss-tolerant",), why="round-2 seed C09/5"),
+    Mutant("missing-root-arg-skipped", CF, "            # another function. In this case, we don't want to cache the result.\n            return None\n", "            # another function. In this case, we don't want to cache the result.\n            continue\n", ("C09.1-key-complete",), why="round-2 seed C09/6"),
     Mutant("twin-run-comment", B, "                # An intermediate result was provided, the output is then\n", "                # An intermediate result was supplied, the output is then\n", twin=True),
 ]
